@@ -4,19 +4,28 @@
 package processorlimiter
 
 //@ pure APIStreamI.GetType
+//@ pure APIStreamI.GetID
 //@ dropped limiterProcessor).updateMetrics
 
 // the resource manager hands out the strategy object registered for the quota id (trusted; closed world of C01: a fixed-window strategy)
+// asking the resource manager for a quota WITH the transaction's id is also what makes the transaction known to it:
+// OnRequestDrop / the proxy-error path find the quota to give back through that registration (for a concurrency quota:
+// the slot). gAsked records for which (quota, transaction) the manager was asked.
+//@ ghost var gAskedQuota string
+//@ ghost var gAskedFor string
 //@ iface ResourceManagementI.GetQuota
-//@   modifies now
+//@   params quotaID, reqID
+//@   modifies gAskedQuota, gAskedFor, now
+//@   ensures gAskedQuota == quotaID && gAskedFor == reqID
 //@   ensures result1 == nil ==> typeis(result0, *quotaresource.fixedWindow) && result0.(*quotaresource.fixedWindow) != nil && allocated(result0.(*quotaresource.fixedWindow))
 
 //@ func (*limiterProcessor).Execute
-//@   prop C01
+//@   prop C01, C02
 //@   devirt QuotaResourceI => *fixedWindow
 //@   requires[world] worldOK()
 //@   requires p.metaData != nil
 //@   allocates quota, map
-//@   modifies heap, gPendingInc, gLastAllowed, now
+//@   modifies heap, gPendingInc, gLastAllowed, gAskedQuota, gAskedFor, now
+//@   ensures[own-quota-registered-for-this-transaction] result1 == nil ==> gAskedQuota == old(p.quotaID) && gAskedFor == apiStream.GetID()
 //@   ensures[verdict] result1 == nil ==> ((result0.Name == "below_limit") <==> gLastAllowed) && (result0.Name == "below_limit" || result0.Name == "above_limit")
 //@   ensures[world] worldOK()
